@@ -154,8 +154,10 @@ def scenario_part(ctx: vlib.Ctx):
     same-named type arguments from different modules, inheritance with overriding)"""
     from harness import gen, scenarios
     from mashumaro.codecs.basic import BasicDecoder, BasicEncoder
-    for _ in range(ctx.budget(240, 1500)):
-        sc = ctx.rng.choice(scenarios.SCENARIOS)(ctx.rng)
+    todo = scenarios.inheritance_grid(ctx.rng) + [None] * ctx.budget(240, 1500)
+    for sc in todo:
+        if sc is None:
+            sc = ctx.rng.choice(scenarios.SCENARIOS)(ctx.rng)
         ctx.hist("scenarios", sc["name"])
         try:
             ns = scenarios.build(sc)
